@@ -203,6 +203,7 @@ func zzLog(msg string)            { zzLogLines = append(zzLogLines, msg) }
 func zzOut(key string, v interface{}) { zzOutMap[key] = zzRender(v) }
 func zzOutStr(key, v string)          { zzOutMap[key] = "s:" + strconv.Quote(v) }
 
+func zzDeepEqual(a, b interface{}) bool { return reflect.DeepEqual(a, b) }
 func zzIsNaN(f float64) bool        { return f != f }
 func zzFloatEq(a, b float64) bool   { return a == b }
 func zzStrEq(a, b string) bool      { return a == b }
@@ -276,6 +277,20 @@ func zzSame(a, b interface{}) bool {
 		return true
 	case Accessor:
 		return false
+	case zzWrapped:
+		y, ok := b.(zzWrapped)
+		return ok && x.fn == y.fn && zzSame(x.arg, y.arg)
+	case zzWrappedAgg:
+		y, ok := b.(zzWrappedAgg)
+		if !ok || x.fn != y.fn || len(x.args) != len(y.args) {
+			return false
+		}
+		for i := range x.args {
+			if !zzSame(x.args[i], y.args[i]) {
+				return false
+			}
+		}
+		return true
 	}
 	if b == nil {
 		return false
@@ -334,6 +349,12 @@ func zzRender(v interface{}) string {
 		return "[" + strings.Join(parts, ",") + "]"
 	case error:
 		return "E:" + reflect.TypeOf(x).String() + ":" + x.Error()
+	case zzWrapped:
+		return "W:" + x.fn + "(" + zzRender(x.arg) + ")"
+	case zzWrappedAgg:
+		return "A:" + x.fn + "(" + zzRender(x.args) + ")"
+	case Accessor:
+		return "Acc(" + zzRender(x.Get()) + ")"
 	}
 	for i, o := range zzOpaque {
 		if reflect.TypeOf(o) == reflect.TypeOf(v) {
